@@ -17,8 +17,10 @@ mixed length 3); clip / closestPointOnBox against brute-force nearest points; ra
 extremes; transforms on lattice/dyadic affine and projective matrices x boxes incl. empty and infinite against
 the exact 8-corner bound, overload agreement for any old `result`, empty->empty, infinite->infinite.
 
-A law that the real code violates is reported as a VIOLATION with a stable key naming the call site
-(e.g. box-intersects:empty-vs-containing, transform-outparam:empty-input-leaves-result)."""
+A law that the real code violates is reported as a VIOLATION with a stable key naming the call site.  The five laws
+box-intersects:empty-vs-containing, interval-intersects:empty-vs-containing, transform-outparam:empty-input-leaves-result,
+transform-outparam:infinite-input-leaves-result, transform-outparam:projective-extends-old-result were violated by the
+original tree (repaired in /repo 955f533, 6dca912); they stay at full strength and fire again if a defect returns."""
 import os, re
 import lib, troute
 
@@ -30,8 +32,7 @@ OPENS = ["ImathVerif", "ImathVerif.C13", "ImathVerif.BoxTransform"]
 
 SHAPES = ["Interval", "Box2", "Box3", "Box4"]
 PER_SHAPE = ["default_contains_nothing", "makeEmpty_contains_nothing", "makeInfinite_contains_all", "intersectsPoint_iff",
-             "intersectsBox_symm", "intersectsBox_of_common_point", "intersectsBox_iff_axes", "intersectsBox_iff_partial", "intersectsBox_wrong_iff",
-             "intersectsBox_iff_FALSE", "extendByPoint", "extendByBox", "extendByPoint_contains", "extendByBox_contains",
+             "intersectsBox_symm", "intersectsBox_of_common_point", "intersectsBox_iff_axes", "intersectsBox_iff", "intersectsBox_empty", "extendByPoint", "extendByBox", "extendByPoint_contains", "extendByBox_contains",
              "extendByPoint_least", "extendByBox_least", "extend_sequence_least", "extend_sequence_from", "isEmpty_iff",
              "hasVolume_iff", "isInfinite_iff", "eq_iff", "ne_iff", "size", "center", "center_mem"]
 REQUIRED = ["%s_%s" % (s, n) for s in SHAPES for n in PER_SHAPE] + [
@@ -47,9 +48,9 @@ REQUIRED = ["%s_%s" % (s, n) for s in SHAPES for n in PER_SHAPE] + [
     "Box3_closestPointOnBox_nearest",
     "affineTransform_contains", "affineTransform_tight", "arvo_eq_eight_corner_loop", "transform_affine_eq_affineTransform",
     "transform_tight", "transform_contains", "affineTransformOut_eq", "affineTransformOut_same_set",
-    "transformOut_eq_partial", "transformOut_fresh_result_partial", "transformOut_emptyOrInfinite", "transformOut_projective",
-    "transform_empty", "affineTransform_empty", "affineTransformOut_empty", "transform_infinite", "affineTransform_infinite",
-    "affineTransformOut_infinite", "transformOut_empty_FALSE", "transformOut_infinite_FALSE", "transformOut_projective_FALSE"]
+    "transformOut_eq", "four_overloads_agree", "four_overloads_equal", "transformOut_tight",
+    "transform_empty", "transformOut_empty", "affineTransform_empty", "affineTransformOut_empty",
+    "transform_infinite", "transformOut_infinite", "affineTransform_infinite", "affineTransformOut_infinite"]
 
 # every law the harness can report (one obligation each), with the call site it names
 LAW_KEYS = []
@@ -217,9 +218,9 @@ def run(chk):
     report_laws(chk, "random", "%s random %d %d" % (rel, chk.seed, 2000000 if chk.thorough else 200000), rnd[0], rnd[1], rnd[2], rnd[3], RANDOM_KEYS)
     report_laws(chk, "transform", "%s transform %d %d" % (rel, chk.seed, 40000 if chk.thorough else 4000), trn[0], trn[1], trn[2], trn[3], TRANSFORM_KEYS)
     chk.exhaustive = True
-    # replays of the kernel-checked witnesses of the FALSE statements on the real code (informational)
+    # the inputs that used to be counterexamples (repaired in /repo 955f533, 6dca912), replayed on the real code (informational)
     wit = [l[8:] for res in (members, trn) for l in res[6].split("\n") if l.startswith("WITNESS ")]
-    chk.extra["lean_witnesses_replayed_on_the_real_code"] = wit
+    chk.extra["former_counterexamples_replayed_on_the_real_code"] = wit
     for l in wit:
         if "<int>" in l and ("Box<Vec3>" in l or "Interval" in l) or "Box<Vec3<double>>" in l:
             chk.sample({"witness": l}, cap=16)
